@@ -162,14 +162,6 @@ spec fn added_edge(mid: Seq<Node>, fin: Seq<Node>, a: u64, b: u64) -> bool {
         && fin[k].depends_on@ == (if mid[k].id == a { mid[k].depends_on@.insert(b) } else { mid[k].depends_on@ })
 }
 
-impl ModuleGraph {
-    // @trusted: contract of the recursive query deep_depends_on (recursion inside `any(closure)` over a visited set; not verified): reachability along at least one dependency edge
-    #[verifier::external_body]
-    fn deep_depends_on(&self, path: &u64, target: &u64) -> (res: bool)
-        requires wf(*self)
-        ensures res == reach_g(self.graph@, *path, *target)
-    { false }
-}
 proof fn reveal_mid(o: ModuleGraph, m: ModuleGraph, r: u64)
     requires wf(o), wf(m),
         has_path(o, r) ==> m.graph@ == o.graph@,
@@ -199,4 +191,85 @@ proof fn lemma_edge_added(m: ModuleGraph, f: ModuleGraph, a: u64, b: u64)
         assert(m.index@.contains_key(m.graph@[i].id));
     }
 }
+// @trusted: contract of Set::iter (visits exactly the elements, in some order)
+#[verifier::external_body]
+pub fn w_set_elems(s: &ErgSet) -> (r: Vec<u64>)
+    ensures forall|x: u64| #![trigger s@.contains(x)] #![trigger r@.contains(x)] s@.contains(x) <==> r@.contains(x),
+{ s.inner.iter().cloned().collect() }
+
+spec fn ids(g: Seq<Node>) -> Set<u64> { g.map_values(|n: Node| n.id).to_set() }
+spec fn unvisited(g: Seq<Node>, vis: Set<u64>) -> Set<u64> { ids(g).difference(vis) }
+/// every visited vertex that is not being visited (not on the search path) is finished: the target is not among its dependencies
+/// and all its dependencies are visited
+spec fn closed(g: Seq<Node>, vis: Set<u64>, stack: Set<u64>, t: u64) -> bool {
+    forall|i: int, d: u64| 0 <= i < g.len() && vis.contains(#[trigger] g[i].id) && !stack.contains(g[i].id) && #[trigger] g[i].depends_on@.contains(d) ==> d != t && vis.contains(d)
+}
+proof fn lemma_ids(g: Seq<Node>)
+    ensures forall|x: u64| ids(g).contains(x) <==> exists|i: int| 0 <= i < g.len() && g[i].id == x
+{
+    let m = g.map_values(|n: Node| n.id);
+    assert forall|x: u64| ids(g).contains(x) <==> exists|i: int| 0 <= i < g.len() && g[i].id == x by {
+        if ids(g).contains(x) { let i = choose|i: int| 0 <= i < m.len() && m[i] == x; assert(g[i].id == x); }
+        if exists|i: int| 0 <= i < g.len() && g[i].id == x { let i = choose|i: int| 0 <= i < g.len() && g[i].id == x; assert(m[i] == x); assert(m.contains(x)); }
+    }
+}
+proof fn lemma_unvisited_dec(g: Seq<Node>, u1: Set<u64>, u2: Set<u64>, k: int)
+    requires u1.subset_of(u2), 0 <= k < g.len(), !u1.contains(g[k].id), u2.contains(g[k].id)
+    ensures unvisited(g, u2).len() < unvisited(g, u1).len()
+{
+    lemma_ids(g);
+    let a = unvisited(g, u1);
+    assert(a.contains(g[k].id));
+    assert(unvisited(g, u2).subset_of(a.remove(g[k].id)));
+    vstd::set_lib::lemma_len_subset(unvisited(g, u2), a.remove(g[k].id));
+}
+proof fn lemma_walk1(g: Seq<Node>, k: int, t: u64)
+    requires 0 <= k < g.len(), g[k].depends_on@.contains(t)
+    ensures reach_g(g, g[k].id, t)
+{
+    let p = seq![g[k].id, t];
+    assert(edge_g(g, p[0], p[1]));
+    assert(is_walk(g, p) && p[0] == g[k].id && p.last() == t);
+}
+proof fn lemma_walk_prepend(g: Seq<Node>, k: int, b: u64, t: u64)
+    requires 0 <= k < g.len(), g[k].depends_on@.contains(b), reach_g(g, b, t)
+    ensures reach_g(g, g[k].id, t)
+{
+    let p = choose|p: Seq<u64>| is_walk(g, p) && p[0] == b && p.last() == t;
+    let q = seq![g[k].id] + p;
+    assert forall|i: int| 0 <= i < q.len() - 1 implies edge_g(g, q[i], #[trigger] q[i + 1]) by {
+        if i == 0 { assert(q[1] == p[0]); assert(edge_g(g, g[k].id, b)); } else { assert(q[i] == p[i - 1]); assert(q[i + 1] == p[(i - 1) + 1]); assert(edge_g(g, p[i - 1], p[(i - 1) + 1])); }
+    }
+    assert(is_walk(g, q) && q[0] == g[k].id && q.last() == t);
+}
+/// a closed visited set (nothing on the search path) that contains a is closed under dependencies and never meets the target
+proof fn lemma_closed_no_reach(g: Seq<Node>, vis: Set<u64>, a: u64, t: u64)
+    requires closed(g, vis, Set::<u64>::empty(), t), vis.contains(a)
+    ensures !reach_g(g, a, t)
+{
+    if reach_g(g, a, t) {
+        let p = choose|p: Seq<u64>| is_walk(g, p) && p[0] == a && p.last() == t;
+        lemma_walk_in(g, vis, t, p, p.len() - 1);
+        // the last edge ends at t although its source is visited and finished
+        let j = p.len() - 2;
+        assert(edge_g(g, p[j], p[j + 1]));
+        let i = choose|i: int| 0 <= i < g.len() && g[i].id == p[j] && g[i].depends_on@.contains(p[j + 1]);
+        assert(vis.contains(g[i].id));
+    }
+}
+proof fn lemma_walk_in(g: Seq<Node>, vis: Set<u64>, t: u64, p: Seq<u64>, n: int)
+    requires closed(g, vis, Set::<u64>::empty(), t), is_walk(g, p), vis.contains(p[0]), 0 <= n < p.len() - 1 || n == p.len() - 1
+    ensures forall|j: int| 0 <= j < n ==> vis.contains(#[trigger] p[j])
+    decreases n
+{
+    if n > 1 {
+        lemma_walk_in(g, vis, t, p, n - 1);
+        let j = n - 2;
+        assert(edge_g(g, p[j], p[j + 1]));
+        let i = choose|i: int| 0 <= i < g.len() && g[i].id == p[j] && g[i].depends_on@.contains(p[j + 1]);
+        assert(vis.contains(g[i].id));
+        assert(vis.contains(p[n - 1]));
+    }
+}
+
 } // verus!
